@@ -331,3 +331,6 @@ def run(ctx):
     # bit (float-exact reduction of the interpolation formula at its end point; rule of C12)
     from . import c12
     ctx.guard(c12.r12_8)
+    # hidden state by mutation: a step must not update, in place, tensors it was handed
+    from . import c05
+    ctx.guard(c05.r05_5)
